@@ -236,6 +236,20 @@ def main(tier="quick"):
                 seen.add(q)
                 cases.append(Case(pid, backend, q, md, {"source": "seqparam"}))
                 pid += 1
+        # enum values in namespaces one to four levels deep (model classes generated per program, as in C10): every qualified
+        # name the translator writes must be one the data model declares
+        from mc.checks import c10
+        for c in c10.build(backend, "quick"):
+            if c["kind"].startswith("enum:") and c["query"] not in seen:
+                seen.add(c["query"] + c["kind"])
+                cases.append(Case(pid, backend, c["query"], c["md"], {"source": "enum", "prelude": c["prelude"]}))
+                pid += 1
+        from mc.lang import memberfam
+        for ctx, q in memberfam.queries(backend):
+            if q not in seen:
+                seen.add(q)
+                cases.append(Case(pid, backend, q, md + memberfam.extra_metadata(backend), {"source": "member"}))
+                pid += 1
         # nested lambdas that re-use ONE parameter name (the inner shadows the outer) with a later use of the outer parameter
         from mc.checks import c08
         for q in c08.shadow_family(backend):
